@@ -19,6 +19,9 @@ pub enum Case {
     Http { v6: bool, max_peers: usize, max_scrape_torrents: usize, scrape_len: usize },
     /// the longest scrape the tracker's request buffer takes, found by probing the tracker itself
     HttpLongestScrape { swarm_workers: usize, max_scrape_torrents: usize },
+    /// IPv4-only sockets behind a reverse proxy that reports IPv6 clients: the peers are IPv6
+    /// (18 bytes each) whatever the listening sockets are
+    HttpProxyV6Clients { max_peers: usize },
 }
 
 fn connect(c: &UdpClient) -> Result<i64, Violation> {
@@ -140,6 +143,66 @@ pub fn prop(case: &Case) -> CaseResult {
                 }
             }
             out.label(if *uring { "uring" } else { "mio" });
+        }
+        Case::HttpProxyV6Clients { max_peers } => {
+            let n = *max_peers;
+            let t = start_http(|port| {
+                let mut c = http_config(port, 1, 1);
+                c.network.use_ipv6 = false;
+                c.network.runs_behind_reverse_proxy = true;
+                c.protocol.max_peers = n;
+                c.cleaning.torrent_cleaning_interval = 100_000;
+                c.cleaning.max_peer_age = 100_000;
+                c
+            });
+            let t = match t {
+                Ok(t) => t,
+                Err(e) if e.contains("run() returned Err") => {
+                    out.label("configuration-refused");
+                    out.nontrivial = true;
+                    return Ok(out);
+                }
+                Err(e) => return Err(Violation::new("inconclusive-tracker-start", e)),
+            };
+            out.label("configuration-accepted");
+            let ip: IpAddr = "127.0.0.1".parse().unwrap();
+            let to: SocketAddr = (std::net::Ipv4Addr::LOCALHOST, t.port).into();
+            let mut c = HttpClient::connect(ip, to).map_err(|e| Violation::new("inconclusive-connect", e))?;
+            let hash = ascii_hash(79, 1);
+            let hs = std::str::from_utf8(&hash).unwrap();
+            let timeout = crate::e2e::reply_wait();
+            let fill = n + 1;
+            for i in 0..fill {
+                let req = format!("GET /announce?info_hash={hs}&peer_id=-TR2940-abcdefghijkl&port={}&uploaded=0&downloaded=0&left=1&numwant=1&compact=1 HTTP/1.1\r\nHost: x\r\nX-Forwarded-For: 2001:db8::{:x}\r\n\r\n", 1000 + (i % 60000), 1 + i / 60000);
+                c.send_segments(&[req.as_bytes()]).map_err(|e| Violation::new("inconclusive-send", e))?;
+                match c.read_reply(timeout) {
+                    HttpRead::Ok { .. } => {}
+                    other => return Err(Violation::new("inconclusive-fill", format!("while filling the swarm (announce {i}): {:?}", other))),
+                }
+            }
+            let req = format!("GET /announce?info_hash={hs}&peer_id=-TR2940-abcdefghijkl&port=60001&uploaded=0&downloaded=0&left=1&numwant={n}&compact=1 HTTP/1.1\r\nHost: x\r\nX-Forwarded-For: 2001:db8::ffff\r\n\r\n");
+            c.send_segments(&[req.as_bytes()]).map_err(|e| Violation::new("inconclusive-send", e))?;
+            out.checks += 1;
+            let body = match c.read_reply(timeout) {
+                HttpRead::Ok { body, .. } => body,
+                other => vfail!(
+                    "reply-dropped",
+                    "accepted configuration max_peers={n} with use_ipv6=false behind a reverse proxy: the reply to an announce of an IPv6 client (address from the proxy header) asking for {n} peers of a swarm of {fill} IPv6 peers was not delivered: {:?}",
+                    other
+                ),
+            };
+            let tree = ben_parse_strict(&body[..body.len().saturating_sub(2)]).map_err(|e| Violation::new("reply-malformed", e))?;
+            let got = match tree.get(b"peers6") {
+                Some(Ben::Bytes(b)) => b.len() / 18,
+                _ => vfail!("reply-malformed", "no peers6 in announce reply"),
+            };
+            vensure!(got + 1 >= n.min(fill) && got <= n, "reply-cut-short", "announce reply carries {got} IPv6 peers; configuration allows {n}, swarm has {fill}");
+            if body.len() + 45 + 64 >= 8192 {
+                out.label("reply-near-buffer-size");
+                out.nontrivial = true;
+            }
+            out.label("http-proxy-v6-clients");
+            out.label("http");
         }
         Case::HttpLongestScrape { swarm_workers, max_scrape_torrents } => {
             let t = start_http(|port| {
@@ -383,6 +446,9 @@ pub fn cases(tier: Tier) -> Vec<Case> {
             v.push(Case::HttpLongestScrape { swarm_workers, max_scrape_torrents: limit });
         }
     }
+    for n in tier.pick(vec![50usize, 438, 440, 441, 446, 460, 1322], vec![1usize, 50, 400, 436, 437, 438, 439, 440, 441, 442, 443, 446, 447, 460, 500, 876, 1322, 1323]) {
+        v.push(Case::HttpProxyV6Clients { max_peers: n });
+    }
     for scrape_len in tier.pick(vec![50usize, 56, 57, 58, 59, 64, 65], (50..=65).collect()) {
         for limit in [1usize, 50, 100] {
             v.push(Case::Http { v6: false, max_peers: 50, max_scrape_torrents: limit, scrape_len });
@@ -400,7 +466,7 @@ pub fn run(ctx: &mut Ctx) {
     ctx.threads = saved.min(6);
     ctx.run_enum("configs", cases(ctx.tier), true, prop);
     ctx.threads = saved;
-    for l in ["configuration-refused", "configuration-accepted", "reply-near-buffer-size", "uring", "mio", "http", "http-longest-scrape"] {
+    for l in ["configuration-refused", "configuration-accepted", "reply-near-buffer-size", "uring", "mio", "http", "http-longest-scrape", "http-proxy-v6-clients"] {
         ctx.require_label("configs", l, 0.02);
     }
 }
